@@ -687,6 +687,8 @@ theorem cinv_step (c : CState) (op : COp) (h : CInv c) : CInv (cstep c op) := by
     · exact h
     · exact cinv_mallocState c h
   | countReset => exact h
+  | realloc _ => exact h
+  | free => exact h
 
 theorem cinv_run : ∀ (ops : List COp) (c : CState), CInv c → CInv (crun c ops)
   | [], _, h => h
@@ -701,5 +703,33 @@ theorem afterMallocs_idle (c : CState) (h1 : c.counter = noCountdown) (h2 : c.cu
     rw [countdown_idle _ (by rw [a]; simp [noCountdown])]
     exact ⟨a, b⟩
 
+theorem countdown_count (c : CState) : (countdown c).count = c.count := by
+  unfold countdown
+  split
+  · rfl
+  · split
+    · rfl
+    · split <;> rfl
+
+theorem cstep_count (c : CState) (op : COp) :
+    (cstep c op).count =
+      match op with
+      | .countReset => 0
+      | op => if op.allocating then c.count + 1 else c.count := by
+  cases op with
+  | setCountdown n => simp only [cstep, setCountdown, COp.allocating]; split <;> rfl
+  | setOOM => rfl
+  | setNotOOM => rfl
+  | malloc => simp [cstep, mallocState, countdown_count, COp.allocating]
+  | strdup s => simp [cstep, strdup, mallocState, countdown_count, COp.allocating]
+  | strndup s n => simp [cstep, strndup, mallocState, countdown_count, COp.allocating]
+  | calloc a b =>
+    simp only [cstep, calloc, COp.allocating]
+    by_cases h : callocOverflows a b = true
+    · simp [h]
+    · simp [h, mallocState, countdown_count]
+  | countReset => rfl
+  | realloc e => rfl
+  | free => rfl
 
 end Failable
